@@ -17,6 +17,11 @@ META = {
     'level_note':
         'Trusted: z3 (integers), the chord-symbol parser of the same module as '
         'the meaning of a name (the property is stated in terms of it).',
+    'technique':
+        'bounded symbolic execution of the real functions with z3; names are '
+        'strings, so the pitch-class sets and symbol grids are enumerated '
+        'through solver-closed choices (degenerate, labelled) while octave '
+        'layouts stay symbolic',
     'functions': [('chord_symbols_lib', 'pitches_to_chord_symbol'),
                   ('chord_symbols_lib',
                    '_largest_chord_kind_from_relative_pitches'),
@@ -89,6 +94,55 @@ def h_name(c):
     tri = set((root + d) % 12 for d in _TRIADS[names[q]])
     c.check(tri <= set(cs.chord_symbol_pitches(name)),
             'a triad quality implies the triad is among the pitches')
+
+
+_MAJOR_SCALE = [0, 2, 4, 5, 7, 9, 11]
+
+
+def _degree_pc(d):
+  """Pitch class of a degree string of the kind table ('b3', '#11', 'bb7'):
+  the major-scale degree, lowered / raised once per accidental sign."""
+  n = int(d.lstrip('#b'))
+  return (_MAJOR_SCALE[(n - 1) % 7] + d.count('#') - d.count('b')) % 12
+
+
+def h_kind(c):
+  """Every chord kind of the module's own table, on every root: the pitches
+  its degree list denotes (read by the harness, not by the library) are named
+  by pitches_to_chord_symbol with a name that denotes the same pitch classes
+  again, in any octave layout and over any chord tone as bass."""
+  cs = c.mod('chord_symbols_lib')
+  kinds = cs._CHORD_KINDS
+  lo, hi = c.params['kinds']
+  abbrevs, degrees = c.choice('kind', kinds[lo:hi])
+  root = c.int('root', 0, 11)
+  rootc = c.concretize(root)
+  pcs = sorted(set((rootc + _degree_pc(d)) % 12 for d in degrees))
+  octs = [c.int('o%d' % i, 2, 6) for i in range(len(pcs))]
+  pitches = [pc + 12 * o for pc, o in zip(pcs, octs)]
+  res, err = c.raises(cs.pitches_to_chord_symbol, list(pitches))
+  if err is not None:
+    c.check(isinstance(err, cs.ChordSymbolError),
+            'a set that cannot be named raises ChordSymbolError and nothing '
+            'else')
+    c.cover('kind not nameable in this layout')
+    return
+  low = pitches[0]
+  for p_ in pitches[1:]:
+    low = c.If(p_ < low, p_, low)
+  low_pc = c.concretize(low % 12)
+  bass = cs.chord_symbol_bass(res)
+  got = sorted(set(p_ % 12 for p_ in cs.chord_symbol_pitches(res)) | {bass})
+  c.check(bass == low_pc, 'the lowest supplied pitch is the bass')
+  c.check(got == pcs, 'the name of a table kind denotes exactly its pitch '
+                      'classes')
+  # and the kind's own abbreviations denote the degrees of the table
+  for ab in abbrevs:
+    fig = 'C' + ab
+    c.check(sorted(set(cs.chord_symbol_pitches(fig))) ==
+            sorted(set(_degree_pc(d) for d in degrees)),
+            'every abbreviation of a kind denotes the degrees the table lists')
+  c.cover('named')
 
 
 _STEP_PC = {'C': 0, 'D': 2, 'E': 4, 'F': 5, 'G': 7, 'A': 9, 'B': 11}
@@ -166,7 +220,7 @@ def h_symbol(c):
     c.check(q == cs.CHORD_QUALITY_OTHER, 'quality is one of the five values')
 
 
-HARNESSES = {'h_name': h_name, 'h_symbol': h_symbol}
+HARNESSES = {'h_name': h_name, 'h_symbol': h_symbol, 'h_kind': h_kind}
 
 
 def jobs(tier):
@@ -181,6 +235,9 @@ def jobs(tier):
   add(K=2)
   for first in range(0, 10):
     add(K=3, first=first)
+  # every kind of the module's table on every root, all layouts
+  for lo in range(0, 29, 3):  # 29 kinds in the table
+    add(harness='h_kind', kinds=[lo, lo + 3], budget=900)
   # parseable symbols: every kind of the table x <=1 modification (every type,
   # degrees 1..13) x 3 root spellings x {no bass, 2 basses}
   for lo in range(0, 68, 9):
